@@ -55,8 +55,8 @@ def encodeTables (kc : Int) (xtermMods : Nat) (deckpam decckm : Bool) (text : St
   | some (number, final) => some ([27, 91] ++ decimal number ++ [59] ++ decimal ((xtermMods : Int) + 1) ++ strOfRune final)
   | none => none
 
-/-- `encodeXterm`. -/
-def encodeXterm (u : Uni) (key : Key) (deckpam decckm : Bool) : Str :=
+/-- `encodeXterm` after its keypad block (the body from `xtermMods := …` on). -/
+def encodeXtermCore (u : Uni) (key : Key) (deckpam decckm : Bool) : Str :=
   -- `key.Modifiers & ModShift | key.Modifiers & ModAlt | key.Modifiers & ModCtrl`
   let xtermMods := (key.mods &&& ModShift) ||| (key.mods &&& ModAlt) ||| (key.mods &&& ModCtrl)
   let kc := key.keycode
@@ -79,5 +79,19 @@ def encodeXterm (u : Uni) (key : Key) (deckpam decckm : Bool) : Str :=
       if key.shifted > 0 then esc ++ strOfRune key.shifted else esc ++ strOfRune (u.toUpper kc)
     else esc ++ strOfRune kc
   else []
+
+/-- `ModShift|ModAlt|ModCtrl|ModNumLock`: an application-mode keypad code is sent only when none of them is set. -/
+def keypadMask : Nat := ModShift ||| ModAlt ||| ModCtrl ||| ModNumLock
+
+/-- `if val, ok := keypadNumericMode[key.Keycode]; ok { key.Keycode = val }`: the key a keypad key stands for
+    (the character of its legend, Enter, the cursor / editing key); any other key is itself. -/
+def keypadLegend (kc : Int) : Int := (lookup kc keypadNumericMode).getD kc
+
+/-- `encodeXterm`: the keypad block (F413 fixed), then the rest on the key the keypad key stands for. -/
+def encodeXterm (u : Uni) (key : Key) (deckpam decckm : Bool) : Str :=
+  -- `if val, ok := keypadApplicationMode[key.Keycode]; ok && deckpam && key.Modifiers&(Shift|Alt|Ctrl|NumLock) == 0 { return val }`
+  match (if deckpam = true ∧ key.mods &&& keypadMask = 0 then lookup key.keycode keypadApplicationMode else none) with
+  | some v => bytesStr v
+  | none => encodeXtermCore u { key with keycode := keypadLegend key.keycode } deckpam decckm
 
 end VaxisModel.Model.TermKey
